@@ -4,7 +4,7 @@
 #include <string>
 #include <vector>
 namespace c08 {
-enum OpKind { OP_OPEN, OP_WRITE, OP_SEEK, OP_FLUSH, OP_CLOSE, OP_TRUNCATE, OP_REMOVE };
+enum OpKind { OP_OPEN, OP_WRITE, OP_SEEK, OP_FLUSH, OP_CLOSE, OP_TRUNCATE, OP_REMOVE, OP_RENAME };
 struct Op { OpKind kind; long long offset; std::vector<unsigned char> data; long long len; };
 struct State {
   bool active = false, record = false;
@@ -21,5 +21,5 @@ struct State {
   void reset(const std::string& t) { *this = State(); target = t; }
 };
 State& state();
-inline const char* op_name(OpKind k) { static const char* n[] = {"open", "write", "seek", "flush", "close", "truncate", "remove"}; return n[k]; }
+inline const char* op_name(OpKind k) { static const char* n[] = {"open", "write", "seek", "flush", "close", "truncate", "remove", "rename"}; return n[k]; }
 }  // namespace c08
